@@ -5,6 +5,11 @@ Tie: correspondence (C).  Real `Database` / `BIOGEME` objects are built from abs
 counts, for row permutations and for splits of the rows (`Database.extract_rows` and separate
 `Database` objects).  `calculate_likelihood`, `calculate_likelihood_and_derivatives` and `simulate`
 are driven; per-row derivatives come from the disaggregate path of `expressions/calculator.py`.
+The parameter point is handed to `simulate` as dicts written in several orders, with and without
+entries of parameters the model does not have (`beta_values_dict_to_list`), and through
+`change_init_values` / `calculate_init_likelihood`.  The same family of formulas is run on panel
+data (`Database.panel`, one value per individual, sample size = number of individuals) with all the
+entry points, scaled and unscaled.
 
 * property oracle (independent of the Lean model): L = fsum(w_n * l_n) of the values `simulate`
   reports; scaled = L / N; equal over thread counts, permutations, splits; g, H, BHHH the same sums;
@@ -32,8 +37,13 @@ MANIFEST = dict(
     'sum_n w_n*l_n (weighted / unweighted = weight one), are invariant under thread count, row permutation and any split into parts '
     '(thread_invariant, perm_invariant, split_additive, split_additive_many); scaled = sum / N for every value of the parameter incl. 0 '
     '(scaled, threads_resolved); gradient, Hessian (upper triangle mirrored) and BHHH entries are the same sums (gradient_sum, hessian_sum, '
-    'bhhh_sum, derivatives_thread_invariant). Tie: real BIOGEME objects over thread counts {1,2,3,N-1,N,N+1,2N,0}, permutations, 2-4 way '
-    'splits; bit-for-bit reproduction of the engine\'s order of additions by the Float model from the real per-row simulated values.',
+    'bhhh_sum, derivatives_thread_invariant). "For the same parameters": the vector built from a dict of named values is built by name, '
+    'independent of the order of the entries and of entries of parameters the model does not have, a missing entry is an error '
+    '(beta_vector_by_name, beta_vector_order, beta_vector_foreign, beta_vector_same_point, beta_vector_incomplete). Sample size: rows, or for panel '
+    'data the distinct ids; every row belongs to exactly one individual (sample_size, individuals_partition, individuals_sum); value, gradient, '
+    'Hessian and BHHH are scaled by that same sample size (scaled_sample_size, scaled_derivatives). '
+    'Tie: real BIOGEME objects over thread counts {1,2,3,N-1,N,N+1,2N,0}, permutations, 2-4 way '
+    'splits, cross-sectional and panel data, dicts in several orders with foreign entries; bit-for-bit reproduction of the engine\'s order of additions by the Float model from the real per-row / per-individual simulated values.',
     design='DESIGN.md §5 C04',
     technique='Lean 4 theorems (core + Mathlib sums) over an executable model of the row partition and accumulation + differential correspondence with real BIOGEME runs',
     note='PARTIAL: thread schedules / data races cannot be exhibited (the model uses one accumulator per thread, added after join, as read in biogeme.cc); '
@@ -45,11 +55,15 @@ TRUSTED = [
     'absence of data races between engine threads (each thread owns its accumulator; results are added after pthread_join) - not expressible in the model',
     'per-row values l_n, w_n, g_n, h_n are taken from the real code (simulate / disaggregate evaluation); their correctness is C01/C02',
     'R vs IEEE double: theorems are over R; the oracle uses the tolerance below',
+    'the value of an individual of panel data (PanelLikelihoodTrajectory: product over its rows) is taken from the real code and compared with the sum of the cross-sectional per-row values of the same formula (1e-9 relative); the operator itself is not modelled',
 ]
-ASSUMPTIONS = ['N >= 1 (Database refuses an empty table)', 'cpu_count() >= 1', 'per-row Hessians are symmetric (hypothesis of C04.hessian_sum)']
+ASSUMPTIONS = ['N >= 1 (Database refuses an empty table)', 'the keys of a dict are distinct (hypothesis of C04.beta_vector_order)', 'panel data: the rows of an individual are consecutive (Database.panel refuses other tables); the weight formula of panel data is a constant (the engine attaches no row to it)', 'cpu_count() >= 1', 'per-row Hessians are symmetric (hypothesis of C04.hessian_sum)']
 RULE = (
     'table (1-40 rows, shuffled index labels) x formula family {col, quad, logit, expmix} x weight {none, column, expression} x thread counts '
-    '{1,2,3,N-1,N,N+1,2N,0} x 2 permutations x one 2-4 way split; panel tables (1-12 individuals, blocks of individuals); sequences simulate / likelihood / estimate(with and without bootstrap) / likelihood / simulate on one object; non-trivial = >= 2 rows and (T >= 2 or non-identity permutation or split)'
+    '{1,2,3,N-1,N,N+1,2N,0} x 2 permutations x one 2-4 way split; per evaluated object 1-2 dicts of the parameter point (own names alphabetical / reversed / shuffled / as typed, '
+    '0-3 foreign entries first / last / anywhere, or one entry missing) handed to simulate and beta_values_dict_to_list, and the point set by name as initial values; '
+    'panel tables (1-12 individuals of 1-4 rows, unsorted ids, constant weight or none) with the same formula family, all entry points scaled and unscaled, thread counts relative to the number of individuals, '
+    'one reordering keeping individuals consecutive, one split into 2-3 sets of individuals; sequences simulate / likelihood / estimate(with and without bootstrap) / likelihood / simulate on one object; non-trivial = >= 2 rows and (T >= 2 or non-identity permutation or split)'
 )
 
 WHERE_RETHREAD = 'simulate after number_of_threads was changed (engine thread state shared with the likelihood)'
@@ -81,11 +95,19 @@ def n_params(formula: str) -> int:
     return {'col': 0, 'quad': 2, 'logit': 2, 'expmix': 3}[formula]
 
 
-def build_formula(formula: str, names: list[str]):
-    """the small formula family of this property (per-row value l(row, beta))"""
-    from biogeme.expressions import Beta, Variable, exp
+def is_panel(case_or_table) -> bool:
+    t = case_or_table.get('table', case_or_table)
+    return 'ID' in t['cols']
+
+
+def build_formula(formula: str, names: list[str], panel: bool = False):
+    """the small formula family of this property (per-row value l(row, beta)); on panel data the
+    value of an individual is the log of the product over its rows of exp(l(row, beta))"""
+    from biogeme.expressions import Beta, Variable, exp, log, PanelLikelihoodTrajectory
     from biogeme import models
 
+    if panel:
+        return log(PanelLikelihoodTrajectory(exp(build_formula(formula, names))))
     L, X, Y, Z, CH = (Variable(c) for c in ('L', 'X', 'Y', 'Z', 'CH'))
     if formula == 'col':
         return L
@@ -111,19 +133,38 @@ def build_weight(weight):
         return Variable('W') * 2
     if weight == 'W+Z':
         return Variable('W') + Variable('Z')
+    if weight.startswith('const:'):
+        # the only kind of weight the engine accepts on panel data (no row is attached to the weight formula)
+        from biogeme.expressions import Numeric
+
+        return Numeric(float(weight[6:]))
     raise ValueError(weight)
+
+
+def table_cols(table):
+    return COLS + (['ID'] if 'ID' in table['cols'] else [])
 
 
 def make_df(table):
     import pandas as pd
 
-    return pd.DataFrame({c: [float(v) for v in table['cols'][c]] for c in COLS}, index=list(table['index']))
+    return pd.DataFrame({c: [float(v) for v in table['cols'][c]] for c in table_cols(table)}, index=list(table['index']))
+
+
+def make_db(table, name='t'):
+    """a real Database; panel when the table has a column of individual ids"""
+    import biogeme.database as db
+
+    d = db.Database(name, make_df(table))
+    if is_panel(table):
+        d.panel('ID')
+    return d
 
 
 def make_biogeme(database, case, T, via='kwarg'):
     import biogeme.biogeme as bio
 
-    ll = build_formula(case['formula'], case['names'])
+    ll = build_formula(case['formula'], case['names'], is_panel(case))
     w = build_weight(case['weight'])
     if w is None and case.get('single', False):
         formulas = ll
@@ -136,9 +177,10 @@ def make_biogeme(database, case, T, via='kwarg'):
     return bio.BIOGEME(database, formulas)
 
 
-def evaluate(database, case, T, via='kwarg', derivs=True):
+def evaluate(database, case, T, via='kwarg', derivs=True, dicts=None, init_items=None):
     """drive the real code for one object: returns a JSON-able record"""
     toml = TOML.format(T=T if via == 'toml' else 5)
+    panel = is_panel(case)
     with core.scratch(toml):
         B = make_biogeme(database, case, T, via)
         names = list(B.free_beta_names)
@@ -147,9 +189,13 @@ def evaluate(database, case, T, via='kwarg', derivs=True):
             'names': names,
             'threads': int(B.number_of_threads),
             'N': int(database.get_sample_size()),
+            'nrows': len(case['table']['index']),
+            'ids': sorted(int(v) for v in case['table']['cols']['ID']) if panel else None,
             'L': float(B.calculate_likelihood(x, scaled=False)),
             'Ls': float(B.calculate_likelihood(x, scaled=True)),
         }
+        if panel:
+            out['imap'] = [[int(i), int(r.iloc[0]), int(r.iloc[1])] for i, r in database.individualMap.iterrows()]
         if derivs and names:
             r = B.calculate_likelihood_and_derivatives(x, scaled=False, hessian=True, bhhh=True)
             rs = B.calculate_likelihood_and_derivatives(x, scaled=True, hessian=True, bhhh=True)
@@ -169,21 +215,53 @@ def evaluate(database, case, T, via='kwarg', derivs=True):
             fgh = fresh().f_g_h()
             out['neg'] = {'f': f_only, 'fg_f': float(fg.function), 'g': np.asarray(fg.gradient).tolist(),
                           'h': np.asarray(fgh.hessian).tolist(), 'fgh_f': float(fgh.function), 'gh': np.asarray(fgh.gradient).tolist()}
-        sim = B.simulate(dict(zip(names, x)))
-        keys = list(sim.columns)
-        out['l'], out['w'] = sim_lw(sim, case)
+        # simulate refuses, on panel data, any formula without a trajectory operator (a constant weight):
+        # the per-individual values then come from the object without the weight formula
+        simB, simcase = B, case
+        if panel and case['weight'] is not None:
+            simcase = dict(case, weight=None)
+            simB = make_biogeme(make_db(case['table']), simcase, T, via)
+
+        def sim_at(d):
+            s_ = simB.simulate(d)
+            l_, w_ = sim_lw(s_, simcase)
+            if simcase is not case:
+                w_ = [float(case['weight'][6:])] * len(l_)
+            return s_, l_, w_
+
+        sim, out['l'], out['w'] = sim_at(dict(zip(names, x)))
         out['sim_index'] = [int(i) for i in sim.index]
-        out['sim_keys'] = keys
+        out['sim_keys'] = list(sim.columns)
+        # the same parameter point written as other dicts (order of the entries, foreign entries, missing entries)
+        out['dicts'] = []
+        for var in dicts or []:
+            d = {k: float(v) for k, v in var['items']}
+            ent = {'items': [[k, float(v)] for k, v in var['items']], 'kind': var['kind']}
+            try:
+                ent['list'] = [float(v) for v in B.beta_values_dict_to_list(dict(d))]
+            except Exception as e:  # noqa: BLE001
+                ent['list_err'] = [core.exc_kind(e), str(e)[:200]]
+            try:
+                _, ent['l'], ent['w'] = sim_at(dict(d))
+            except Exception as e:  # noqa: BLE001
+                ent['sim_err'] = [core.exc_kind(e), str(e)[:200]]
+            out['dicts'].append(ent)
         # a second evaluation after simulate (simulate shares the engine's thread state)
         out['L_after_sim'] = float(B.calculate_likelihood(x, scaled=False))
+        # the same point given by name as initial values: calculate_init_likelihood
+        if init_items is not None and names:
+            B.change_init_values({k: float(v) for k, v in init_items})
+            bv = B.get_beta_values()
+            out['init'] = {'items': [[k, float(v)] for k, v in init_items], 'L': float(B.calculate_init_likelihood()),
+                           'values': {n: (float(bv[n]) if n in bv else None) for n in names}}
     return out
 
 
-def evaluate_safe(res, database, case, T, via, desc, derivs=True):
+def evaluate_safe(res, database, case, T, via, desc, derivs=True, dicts=None, init_items=None):
     """a Python-level exception of the real code on a valid case is a failure of the property's entry points"""
     iso_f.note(desc, 'calculate_likelihood / simulate')
     try:
-        return evaluate(database, case, T, via, derivs)
+        return evaluate(database, case, T, via, derivs, dicts, init_items)
     except Exception as e:  # noqa: BLE001
         res.violate(f'the likelihood entry points raise {type(e).__name__}: {str(e)[:200]} on a valid table', desc, core.exc_kind(e), 'a value', where='calculate_likelihood / simulate')
         return None
@@ -199,7 +277,7 @@ def sim_lw(sim, case):
 
 def per_row(database, case, names):
     """per-row l, g, h (and w) through the disaggregate path of expressions/calculator.py"""
-    ll = build_formula(case['formula'], case['names'])
+    ll = build_formula(case['formula'], case['names'], is_panel(case))
     betas = {n: float(case['x'][n]) for n in names}
     out = {}
     if names:
@@ -210,7 +288,9 @@ def per_row(database, case, names):
     else:
         out['l'] = [float(v) for v in ll.get_value_c(database=database, betas=betas, aggregation=False, prepare_ids=True)]
     w = build_weight(case['weight'])
-    if w is not None:
+    if w is not None and is_panel(case):
+        out['w'] = [float(case['weight'][6:])] * len(out['l'])
+    elif w is not None:
         out['w'] = [float(v) for v in w.get_value_c(database=database, betas=betas, aggregation=False, prepare_ids=True)]
     return out
 
@@ -273,6 +353,45 @@ def gen_case(rng, N=None, formula=None, adversarial=False):
     return case
 
 
+def foreign_pool(names):
+    """names a dict may hold that are not parameters of the model: other plausible names and near misses"""
+    near = [n + '_' for n in names] + [n + '0' for n in names] + [n.swapcase() for n in names if n.swapcase() != n] + [n[:-1] for n in names if len(n) > 1]
+    return [p for p in dict.fromkeys(NAME_POOL + near + ['not_in_model', 'sigma', 'B']) if p not in names]
+
+
+def gen_dict(rng, case, names, kind=None):
+    """the parameter point of the case written as a dict: items in insertion order"""
+    point = case['x']
+    kind = kind or rng.choice(['order', 'order', 'foreign', 'foreign', 'foreign', 'foreign-only-extra', 'incomplete'])
+    own = list(names)
+    order = rng.choice(['alphabetical', 'reversed', 'shuffled', 'typed', 'shuffled', 'reversed'])
+    if order == 'reversed':
+        own.reverse()
+    elif order == 'shuffled':
+        rng.shuffle(own)
+    elif order == 'typed':
+        own = [n for n in case['names'] if n in names]
+    items = [[n, float(point[n])] for n in own]
+    if kind == 'incomplete' and own:
+        del items[rng.randrange(len(items))]
+    if kind in ('foreign', 'foreign-only-extra', 'incomplete'):
+        pool = foreign_pool(names)
+        for f in rng.sample(pool, rng.choice([1, 1, 2, 3])):
+            where = rng.choice(['first', 'last', 'any'])
+            pos = 0 if where == 'first' else len(items) if where == 'last' else rng.randint(0, len(items))
+            items.insert(pos, [f, dy(rng, -8, 8)])
+    return {'kind': kind, 'items': items}
+
+
+def gen_dicts(rng, case, names, n):
+    return [gen_dict(rng, case, names) for _ in range(n)]
+
+
+def dict_is_nontrivial(items, names):
+    own = [k for k, _ in items if k in names]
+    return own != list(names) or len(own) != len(items)
+
+
 def thread_set(N):
     s = [1, 2, 3, N - 1, N, N + 1, 2 * N, 0]
     out = []
@@ -283,7 +402,7 @@ def thread_set(N):
 
 
 def sub_table(table, positions):
-    return {'cols': {c: [table['cols'][c][p] for p in positions] for c in COLS}, 'index': [table['index'][p] for p in positions]}
+    return {'cols': {c: [table['cols'][c][p] for p in positions] for c in table_cols(table)}, 'index': [table['index'][p] for p in positions]}
 
 
 def gen_split(rng, N):
@@ -349,6 +468,48 @@ def oracle_object(rec, case_desc, res, where):
     return fails
 
 
+WHERE_DICT = 'simulate(dict of parameter values) / beta_values_dict_to_list'
+WHERE_INIT = 'change_init_values / calculate_init_likelihood'
+
+
+def oracle_dicts(rec, case_desc, res):
+    """'for the same parameters': the point handed to simulate as a dict denotes the same point as the vector
+    handed to calculate_likelihood, whatever the order of its entries and whatever other entries it holds"""
+    names = rec['names']
+    N = rec['N']
+    fails = 0
+    for ent in rec.get('dicts', []):
+        keys = [k for k, _ in ent['items']]
+        if not all(n in keys for n in names):
+            continue  # incomplete dict: no parameter point is denoted (model correspondence only)
+        desc = dict(case_desc, beta_dict=ent['items'])
+        if 'sim_err' in ent:
+            res.violate(f'simulate raises {ent["sim_err"][0]}: {ent["sim_err"][1][:120]} on a dict holding a value for every parameter of the model', desc, ent['sim_err'][0], 'one value per observation', where=WHERE_DICT)
+            fails += 1
+            continue
+        l, w = ent['l'], ent['w']
+        if len(l) != N:
+            res.violate('simulate returns one value per observation', desc, len(l), N, where=WHERE_DICT)
+            fails += 1
+            continue
+        terms = l if w is None else [a * b for a, b in zip(w, l)]
+        exp = wsum(w, l)
+        if not abs(rec['L'] - exp) <= tol_for(terms, N):
+            res.violate('log likelihood at x = sum of weight x per-observation value simulated for the same parameters (given by name in a dict)', desc, rec['L'], exp, where=WHERE_DICT)
+            fails += 1
+        elif not bits_equal(l, rec['l']) or (w is not None and not bits_equal(w, rec['w'])):
+            res.violate('simulate reports the same per-observation values for the same parameter point written as another dict', desc, {'l': l, 'w': w}, {'l': rec['l'], 'w': rec['w']}, where=WHERE_DICT)
+            fails += 1
+    if 'init' in rec:
+        ini = rec['init']
+        desc = dict(case_desc, init_values=ini['items'])
+        terms = rec['l'] if rec['w'] is None else [a * b for a, b in zip(rec['w'], rec['l'])]
+        if not abs(ini['L'] - rec['L']) <= tol_for(terms, N):
+            res.violate('log likelihood at the initial values (set by name to the point x) = log likelihood at x', desc, ini['L'], rec['L'], where=WHERE_INIT)
+            fails += 1
+    return fails
+
+
 def oracle_derivs(rec, pr, case_desc, res, where):
     """(f): g, H, BHHH = the same weighted sums of the per-row derivatives"""
     if 'd' not in rec or 'g' not in pr:
@@ -385,20 +546,47 @@ def model_requests(rec, pr, param, cpu):
     """driver requests reproducing the engine's order of additions from the real per-row values"""
     l = rec['l']
     w = rec['w']
+    data = {'nrows': rec['nrows'], 'ids': rec.get('ids')} if 'nrows' in rec else {}
     reqs = [
-        {'op': 'loglike', 'l': [f2b(v) for v in l], 'w': None if w is None else [f2b(v) for v in w], 'param': param, 'cpu': cpu, 'scaled': False},
-        {'op': 'loglike', 'l': [f2b(v) for v in l], 'w': None if w is None else [f2b(v) for v in w], 'param': param, 'cpu': cpu, 'scaled': True},
+        dict({'op': 'loglike', 'l': [f2b(v) for v in l], 'w': None if w is None else [f2b(v) for v in w], 'param': param, 'cpu': cpu, 'scaled': False}, **data),
+        dict({'op': 'loglike', 'l': [f2b(v) for v in l], 'w': None if w is None else [f2b(v) for v in w], 'param': param, 'cpu': cpu, 'scaled': True}, **data),
     ]
     if 'd' in rec and pr is not None and 'g' in pr:
         K = len(rec['names'])
         for scaled in (False, True):
-            reqs.append({
+            reqs.append(dict({
                 'op': 'derivs', 'K': K, 'T': rec['threads'], 'scaled': scaled,
                 'w': None if w is None else [f2b(v) for v in w],
                 'g': [[f2b(v) for v in row] for row in pr['g']],
                 'h': [[[f2b(v) for v in r2] for r2 in m] for m in pr['h']],
-            })
+            }, **data))
     return reqs
+
+
+def compare_dicts(ctx, res, rec, desc):
+    """BIOGEME.beta_values_dict_to_list vs Likelihood.betaVector (values cross as bit patterns)"""
+    ents = rec.get('dicts') or []
+    if not ents:
+        return
+    reqs = [{'op': 'betavector', 'names': rec['names'], 'dict': [[k, f2b(v)] for k, v in e['items']]} for e in ents]
+
+    def cb(ans):
+        for e, a in zip(ents, ans):
+            d2 = dict(desc, beta_dict=e['items'])
+            if 'ok' in a:
+                if 'list' not in e or [f2b(v) for v in e['list']] != a['ok']:
+                    res.diverge('beta_values_dict_to_list vs Likelihood.betaVector', d2, [b2f(v) for v in a['ok']], e.get('list', e.get('list_err')))
+                if 'sim_err' in e:
+                    res.diverge('simulate refuses a dict that Likelihood.betaVector accepts', d2, 'values', e['sim_err'])
+            elif 'missing' in a:
+                for key in ('list_err', 'sim_err'):
+                    if key not in e or e[key][0] != 'BiogemeError' or f' {a["missing"]} ' not in e[key][1]:
+                        res.diverge(f'incomplete dict ({key[:-4]}): BiogemeError naming the first missing parameter', d2, {'missing': a['missing']}, e.get(key, 'no error'))
+            else:
+                res.diverge('beta_values_dict_to_list vs Likelihood.betaVector', d2, a, e.get('list'))
+
+    ctx.batch.add_many(reqs, cb)
+
 
 
 def bits_equal(a, b):
@@ -414,6 +602,8 @@ def compare_model(ctx, res, rec, pr, param, desc):
     def cb(ans):
         if ans[0].get('threads') != rec['threads']:
             res.diverge('number_of_threads property vs resolveThreads', desc, ans[0].get('threads'), rec['threads'])
+        if 'nrows' in rec and ans[0].get('size') != rec['N']:
+            res.diverge('Database.get_sample_size vs Likelihood.sampleSize', desc, ans[0].get('size'), rec['N'])
         mv = b2f(ans[0]['value']) if 'value' in ans[0] else None
         if mv is None or not bits_equal([mv], [rec['L']]):
             res.diverge('calculate_likelihood(scaled=False) vs Likelihood.loglike in the engine order (bit for bit)', desc, mv, rec['L'])
@@ -430,25 +620,56 @@ def compare_model(ctx, res, rec, pr, param, desc):
     ctx.batch.add_many(reqs, cb)
 
 
-def check_case(ctx, res, case, threads=None, n_perm=2, do_split=True, rng=None):
+def free_names(case):
+    """the model's free parameters in the order of free_beta_names (sorted names; checked against the real object)"""
+    return sorted(case['names'][: n_params(case['formula'])])
+
+
+def dict_streams(rng, case, n, forced=None):
+    names = free_names(case)
+    dicts = [{'kind': 'replay', 'items': forced}] if forced else gen_dicts(rng, case, names, n)
+    init_items = gen_dict(rng, case, names, kind=rng.choice(['order', 'foreign']))['items'] if names else None
+    if names and case.get('init_values'):
+        init_items = case['init_values']  # replay of a stored failing input
+    return dicts, init_items
+
+
+def after_dicts(ctx, res, rec, desc, case):
+    """oracle + model on the dict variants of one evaluated object"""
+    if rec['names'] != free_names(case):
+        res.diverge('free_beta_names = the sorted names of the free parameters', desc, free_names(case), rec['names'])
+    oracle_dicts(rec, desc, res)
+    compare_dicts(ctx, res, rec, desc)
+    for e in rec.get('dicts', []):
+        res.count({'case': describe(case), 'dict': e['items']}, nontrivial=dict_is_nontrivial(e['items'], rec['names']))
+        own = [k for k, _ in e['items'] if k in rec['names']]
+        res.tally('dict:' + ('incomplete' if len(own) < len(rec['names']) else ('foreign' if len(own) < len(e['items']) else 'own') + ('+reordered' if own != rec['names'] else '')))
+
+
+def check_case(ctx, res, case, threads=None, n_perm=2, do_split=True, rng=None, n_dicts=2):
     import biogeme.database as db
 
     rng = rng or ctx.rng
+    if is_panel(case):
+        return check_panel_case(ctx, res, case, threads=threads, rng=rng, n_dicts=n_dicts)
     table = case['table']
     N = len(table['index'])
     threads = thread_set(N) if threads is None else threads
     base = {}
     pr = None
+    forced = case.get('beta_dict')
     for T in threads:
         via = 'toml' if rng.random() < 0.3 else 'kwarg'
         d = db.Database('t', make_df(table))
-        rec = evaluate_safe(res, d, case, T, via, describe(case, threads=T, via=via))
+        dicts, init_items = dict_streams(rng, case, n_dicts, forced)
+        rec = evaluate_safe(res, d, case, T, via, describe(case, threads=T, via=via), dicts=dicts, init_items=init_items)
         if rec is None:
             return
         desc = describe(case, threads=T, via=via)
         res.count({'case': describe(case), 'T': T}, nontrivial=N >= 2 and (T >= 2 or T == 0))
         res.tally(f'T={"0" if T == 0 else "1" if T == 1 else "2..N-1" if T < N else "N" if T == N else ">N"}')
         oracle_object(rec, desc, res, 'calculate_likelihood / simulate')
+        after_dicts(ctx, res, rec, desc, case)
         if pr is None:
             pr = per_row(db.Database('t', make_df(table)), case, rec['names'])
             # simulate must report what the formulas evaluate to, row by row
@@ -484,10 +705,11 @@ def check_case(ctx, res, case, threads=None, n_perm=2, do_split=True, rng=None):
         pt = sub_table(table, perm)
         d = db.Database('t', make_df(pt))
         pcase = dict(case, table=pt)
-        rec = evaluate_safe(res, d, pcase, T, 'kwarg', describe(case, perm=perm, threads=T), derivs=False)
+        rec = evaluate_safe(res, d, pcase, T, 'kwarg', describe(case, perm=perm, threads=T), derivs=False, dicts=dict_streams(rng, case, 1, forced)[0])
         if rec is None:
             return
         desc = describe(case, perm=perm, threads=T)
+        after_dicts(ctx, res, rec, desc, case)
         res.count({'case': describe(case), 'perm': perm, 'T': T}, nontrivial=perm != list(range(N)))
         res.tally('perm')
         oracle_object(rec, desc, res, 'calculate_likelihood / simulate')
@@ -725,6 +947,177 @@ def check_panel_threads(ctx, res, rng):
         compare_model(ctx, res, rec, None, T, desc)
 
 
+def gen_panel_case(rng, n_ind=None, formula=None):
+    """the formula family on panel data: individuals with 1-4 consecutive rows, ids in arbitrary order"""
+    n_ind = n_ind or rng.choice([1, 2, 2, 3, 4, 5, 7, 9, 12])
+    sizes = [rng.choice([1, 1, 2, 2, 3, 4]) for _ in range(n_ind)]
+    if all(k == 1 for k in sizes) and rng.random() < 0.85:
+        sizes[rng.randrange(n_ind)] = rng.randint(2, 4)
+    ids = rng.sample(range(-20, 40), n_ind)
+    case = gen_case(rng, N=sum(sizes), formula=formula or rng.choice(['quad', 'logit', 'expmix', 'quad', 'logit', 'col']))
+    case['table']['cols']['ID'] = [float(i) for i, k in zip(ids, sizes) for _ in range(k)]
+    case['weight'] = rng.choice([None, None, 'const:2.0', 'const:0.5', 'const:3.0'])
+    return case
+
+
+def group_rows(table):
+    """individuals in the order of the individual map (sorted ids) -> positions of their rows"""
+    ids = [int(v) for v in table['cols']['ID']]
+    return [(i, [p for p, v in enumerate(ids) if v == i]) for i in sorted(set(ids))]
+
+
+def cross_table(table):
+    return {'cols': {c: table['cols'][c] for c in COLS}, 'index': table['index']}
+
+
+def expected_individuals(case, names):
+    """per-individual l, g, h from the *cross-sectional* per-row values of the same formula:
+    log prod_t exp(l_t) = sum_t l_t, and so for its derivatives"""
+    import biogeme.database as db
+
+    ct = cross_table(case['table'])
+    rows = per_row(db.Database('t', make_df(ct)), dict(case, table=ct, weight=None), names)
+    groups = group_rows(case['table'])
+    out = {'l': [math.fsum(rows['l'][p] for p in ps) for _, ps in groups]}
+    if 'g' in rows:
+        g, h = np.asarray(rows['g'], dtype=float), np.asarray(rows['h'], dtype=float)
+        out['g'] = [g[ps].sum(0).tolist() for _, ps in groups]
+        out['h'] = [h[ps].sum(0).tolist() for _, ps in groups]
+    return out
+
+
+def near(a, b, rel=1e-9):
+    a, b = np.asarray(a, dtype=float), np.asarray(b, dtype=float)
+    return a.shape == b.shape and bool(np.all(np.abs(a - b) <= rel * np.maximum(1.0, np.maximum(np.abs(a), np.abs(b)))))
+
+
+def panel_perm(rng, table):
+    """a reordering of the rows that keeps the rows of every individual consecutive"""
+    groups = group_rows(table)
+    rng.shuffle(groups)
+    perm = []
+    for _, ps in groups:
+        ps = list(ps)
+        rng.shuffle(ps)
+        perm.extend(ps)
+    return perm
+
+
+WHERE_PANEL = 'panel data: calculate_likelihood / calculate_likelihood_and_derivatives / simulate'
+
+
+def check_panel_case(ctx, res, case, threads=None, rng=None, n_dicts=1):
+    """clauses (a)-(f) with one observation = one individual"""
+    rng = rng or ctx.rng
+    table = case['table']
+    groups = group_rows(table)
+    M = len(groups)
+    nrows = len(table['index'])
+    threads = thread_set(M) if threads is None else threads
+    forced = case.get('beta_dict')
+    base = {}
+    pr = exp_ind = None
+    for T in threads:
+        via = 'toml' if rng.random() < 0.3 else 'kwarg'
+        desc = describe(case, threads=T, via=via)
+        dicts, init_items = dict_streams(rng, case, n_dicts, forced)
+        try:
+            d = make_db(table)
+        except Exception as e:  # noqa: BLE001
+            res.violate(f'Database.panel raises {type(e).__name__}: {str(e)[:150]} on a table whose individuals are consecutive', desc, core.exc_kind(e), 'a panel data base', where=WHERE_PANEL)
+            return
+        rec = evaluate_safe(res, d, case, T, via, desc, dicts=dicts, init_items=init_items)
+        if rec is None:
+            return
+        res.count({'case': describe(case), 'T': T}, nontrivial=M >= 2 and nrows > M and (T >= 2 or T == 0))
+        res.tally('panel:' + ('rows=individuals' if nrows == M else 'rows>individuals'))
+        if rec['N'] != M:
+            res.violate('sample size of panel data = number of individuals', desc, rec['N'], M, where=WHERE_PANEL)
+        oracle_object(rec, desc, res, WHERE_PANEL)
+        after_dicts(ctx, res, rec, desc, case)
+        if exp_ind is None:
+            names = rec['names']
+            exp_ind = expected_individuals(case, names)
+            pr = per_row(make_db(table), case, names)
+            if not near(rec['l'], exp_ind['l']):
+                res.violate('simulate on panel data reports, individual by individual, the sum over the rows of the individual of the per-row value', desc, rec['l'], exp_ind['l'], where=WHERE_PANEL)
+            if not bits_equal(pr['l'], rec['l']):
+                res.violate('simulate reports the per-individual value of the log-likelihood formula', desc, rec['l'], pr['l'], where=WHERE_PANEL)
+        # (f) from the cross-sectional per-row derivatives, grouped by individual
+        oracle_derivs(rec, exp_ind, desc, res, WHERE_PANEL)
+        if rec['sim_index'] != [i for i, _ in groups]:
+            res.diverge('index of the simulated table = the individuals (sorted ids)', desc, [i for i, _ in groups], rec['sim_index'])
+
+        def cb(ans, rec=rec, desc=desc):
+            a = ans[0]
+            if a.get('size') != rec['N'] or a.get('individuals') != rec['sim_index']:
+                res.diverge('sample size / individuals vs Likelihood.sampleSize, distinct', desc, a, [rec['N'], rec['sim_index']])
+            if [[i, min(r), max(r)] for i, r in zip(a.get('individuals', []), a.get('rows', []))] != rec['imap']:
+                res.diverge('individual map vs Likelihood.individualRows', desc, a.get('rows'), rec['imap'])
+
+        ctx.batch.add_many([{'op': 'samplesize', 'nrows': nrows, 'ids': rec['ids']}], cb)
+        compare_model(ctx, res, rec, pr if 'g' in pr else None, T, desc)
+        base[T] = rec
+    ref = base[threads[0]]
+    terms = ref['l'] if ref['w'] is None else [a * b for a, b in zip(ref['w'], ref['l'])]
+    tol = tol_for(terms, M)
+    for T, rec in base.items():
+        if not abs(rec['L'] - ref['L']) <= 2 * tol:
+            res.violate(f'panel log likelihood with {T} thread(s) = with {threads[0]} thread(s)', describe(case, threads=[threads[0], T]), rec['L'], ref['L'], where='number_of_threads')
+        if 'd' in rec:
+            for k in ('g', 'h', 'b'):
+                a, b = np.asarray(rec['d'][k]), np.asarray(ref['d'][k])
+                sc = max(1.0, float(np.abs(b).max()) if b.size else 1.0)
+                if not np.all(np.abs(a - b) <= 1e-9 * M * sc):
+                    res.violate(f'{k} with {T} thread(s) = {k} with {threads[0]} thread(s)', describe(case, threads=[threads[0], T]), a.tolist(), b.tolist(), where='number_of_threads')
+    if nrows < 2:
+        return
+    # (c) the rows in another order (individuals kept consecutive)
+    perm = panel_perm(rng, table)
+    T = rng.choice(threads)
+    pt = sub_table(table, perm)
+    pcase = dict(case, table=pt)
+    desc = describe(case, perm=perm, threads=T)
+    rec = evaluate_safe(res, make_db(pt), pcase, T, 'kwarg', desc, derivs=True)
+    if rec is None:
+        return
+    res.count({'case': describe(case), 'perm': perm, 'T': T}, nontrivial=perm != list(range(nrows)))
+    res.tally('panel:perm')
+    oracle_object(rec, desc, res, WHERE_PANEL)
+    ltol = 1e-9 * max(1.0, max(abs(v) for v in ref['l']))
+    if not abs(rec['L'] - ref['L']) <= 2 * tol + ltol * M:
+        res.violate('log likelihood of the permuted panel table = log likelihood of the table', desc, rec['L'], ref['L'], where='row order')
+    if rec['sim_index'] != ref['sim_index'] or not near(rec['l'], ref['l']):
+        res.violate('per-individual values follow their individuals under a permutation of the rows', desc, [rec['sim_index'], rec['l']], [ref['sim_index'], ref['l']], where='row order')
+    if 'd' in rec:
+        for k in ('g', 'h', 'b'):
+            if not near(rec['d'][k], ref['d'][k], rel=1e-8):
+                res.violate(f'{k} of the permuted panel table = {k} of the table', desc, rec['d'][k], ref['d'][k], where='row order')
+    compare_model(ctx, res, rec, None, T, desc)
+    # (e) the individuals split into parts
+    if M >= 2:
+        order = list(range(M))
+        rng.shuffle(order)
+        k = rng.randint(2, min(3, M))
+        cuts = sorted(rng.sample(range(1, M), k - 1))
+        bounds = [0] + cuts + [M]
+        parts = [[p for gi in order[bounds[i]: bounds[i + 1]] for p in groups[gi][1]] for i in range(k)]
+        vals = []
+        for ps in parts:
+            T = rng.choice([1, 2, 3, 0])
+            st = sub_table(table, ps)
+            desc = describe(case, part=ps, threads=T)
+            rec = evaluate_safe(res, make_db(st), dict(case, table=st), T, 'kwarg', desc, derivs=False)
+            if rec is None:
+                return
+            oracle_object(rec, desc, res, WHERE_PANEL)
+            vals.append(rec['L'])
+        res.count({'case': describe(case), 'split': parts}, nontrivial=True)
+        res.tally(f'panel:split{k}')
+        if not abs(math.fsum(vals) - ref['L']) <= 2 * tol + ltol * M:
+            res.violate('sum of the log likelihoods of the parts (whole individuals) = log likelihood of the panel table', describe(case, split=parts), {'parts': vals, 'sum': math.fsum(vals)}, ref['L'], where='extract_rows / split')
+
+
 # ----------------------------------------------------------------------------- the check
 
 CORPUS = [
@@ -732,6 +1125,13 @@ CORPUS = [
     {'N': 7, 'formula': 'col', 'weight': 'W', 'seed': 11, 'adversarial': True, 'threads': [1, 6, 7, 8, 14, 0]},
     {'N': 1, 'formula': 'quad', 'weight': None, 'seed': 12, 'adversarial': False, 'threads': [1, 2, 3, 0]},
     {'N': 10, 'formula': 'logit', 'weight': 'W*2', 'seed': 13, 'adversarial': False, 'threads': [3, 4, 9, 11]},
+]
+
+PANEL_CORPUS = [
+    # individuals with several rows, two parameters, all entry points scaled and unscaled
+    {'n_ind': 6, 'formula': 'quad', 'weight': None, 'seed': 31, 'threads': [1, 2, 5, 6, 7, 0]},
+    {'n_ind': 3, 'formula': 'logit', 'weight': 'const:2.0', 'seed': 32, 'threads': [1, 2, 3, 4]},
+    {'n_ind': 1, 'formula': 'expmix', 'weight': 'const:0.5', 'seed': 33, 'threads': [1, 2, 0]},
 ]
 
 RETHREAD_CORPUS = [
@@ -750,11 +1150,17 @@ def corpus_case(c):
 
 
 def check_impl(ctx) -> Result:
-    res = Result(rule=RULE, tolerance='oracle: |L - fsum(w*l)| <= 1e-10*N*max(1,|term|); scaled: rel 1e-15; model vs code: bit for bit (engine order of additions)')
+    res = Result(rule=RULE, tolerance='oracle: |L - fsum(w*l)| <= 1e-10*N*max(1,|term|); scaled: rel 1e-15; model vs code: bit for bit (engine order of additions); dict variants of one point on one object: bit for bit; panel per-individual values vs sums of cross-sectional per-row values: 1e-9 relative')
     rng = ctx.rng
     for c in CORPUS:
         case, crng = corpus_case(c)
         check_case(ctx, res, case, threads=c['threads'], rng=crng)
+        res.tally('corpus')
+    for c in PANEL_CORPUS:
+        crng = core.rng_for('C04-corpus', c['seed'])
+        case = gen_panel_case(crng, n_ind=c['n_ind'], formula=c['formula'])
+        case['weight'] = c['weight']
+        check_panel_case(ctx, res, case, threads=c['threads'], rng=crng, n_dicts=2)
         res.tally('corpus')
     for c in RETHREAD_CORPUS:
         crng = core.rng_for('C04-corpus', c['seed'])
@@ -768,6 +1174,10 @@ def check_impl(ctx) -> Result:
         check_rethread(res, case, T0, T1)
     for _ in range(ctx.n(12, 300)):
         check_panel_threads(ctx, res, rng)
+    for _ in range(ctx.n(10, 200)):
+        check_panel_case(ctx, res, gen_panel_case(rng))
+        if len([v for v in res.violations if v.get('where') not in (WHERE_RETHREAD, WHERE_BOOT)]) > 5:
+            break
     # one object used for several calls in a row, with an estimation in between (F-C04-2: with bootstrap)
     for i in range(ctx.n(6, 120)):
         check_sequence(ctx, res, gen_seq_case(rng, bootstrap=i % 2 == 0))
@@ -805,7 +1215,7 @@ def search(ctx, res, broken):
     c2.batch = NoBatch()
     c2.rng = rng
     for i in range(150):
-        case = gen_case(rng, adversarial=i % 4 == 0)
+        case = gen_panel_case(rng) if i % 3 == 1 else gen_case(rng, adversarial=i % 4 == 0)
         r2 = Result()
         check_case(c2, r2, case, rng=rng)
         if r2.violations:
